@@ -5,7 +5,9 @@ real notifier.Manager by gating the HTTP exchange (Options.Do)."""
 META = {
     "text": "SendLoop.tla models Manager.Send -> alertmanagerSet.send -> sendLoop.add (drop-oldest overflow), the loop goroutine "
             "(outer/inner select, nextBatch, HTTP exchange, re-arm), alertmanagerSet.sync and Manager.Stop/Run with sendLoop.stop() and its "
-            "drain, one process per goroutine. TLC checks over all interleavings: received alerts are an in-order subsequence of the accepted "
+            "drain, Manager.Send in two steps (choose the alertmanager sets under n.mtx, fan out) and ApplyConfig (reload) as a concurrent "
+            "process, one process per goroutine. TLC checks over all interleavings: every alert a completed Send owed an Alertmanager was accepted by "
+            "its send loop (AllAccepted), received alerts are an in-order subsequence of the accepted "
             "(relabel-surviving) ones, batches <= MaxBatchSize, overflow drops the oldest, every loss is counted in `dropped` (exactly, except "
             "one documented race), sent counter = received, drain-on-shutdown leaves nothing unattempted, and (under fairness) shutdown and set "
             "changes terminate. The same module in Eager mode generates complete schedules (Send / set change / stop / exchange completions "
@@ -49,6 +51,9 @@ def run(ctx):
         "rpF": ("MC_replay.cfg", "FALSE", J, {"Cap": "2", "NAlerts": "5"}),
         "rp1T": ("MC_replay1.cfg", "TRUE", J, {"Cap": "3", "NAlerts": "6"}),
         "rp1F": ("MC_replay1.cfg", "FALSE", J, {"Cap": "3", "NAlerts": "6"}),
+        # Send held between its choice of alertmanager sets and the queueing, with a configuration reload in between
+        "rpAT": ("MC_replay_apply.cfg", "TRUE", J, {"Cap": "3", "NAlerts": "4"}),
+        "rpAF": ("MC_replay_apply.cfg", "FALSE", J, {"Cap": "3", "NAlerts": "4"}),
         "live": ("MC_live.cfg", "TRUE", J, {"NAlerts": "2" if q else "3"}),
     }
     if not q:
@@ -65,6 +70,13 @@ def run(ctx):
     with ThreadPoolExecutor(max_workers=3 if q else 2) as ex:
         f = {k: ex.submit(tlc, cfg, drain, join, extra, workers=w, timeout=3000) for k, (cfg, drain, join, extra) in jobs.items()}
         r = {k: v.result() for k, v in f.items()}
+    if not q:
+        # a Send that only snapshots under n.mtx (no lock across the fan-out) must violate AllAccepted in the model
+        nl = ctx.tlc("sendloop", "SendLoop", "MC_nolock.cfg", constants={"Drain": "TRUE", "JoinFix": J}, workers=w, timeout=1200,
+                     allow_violation=True)
+        if nl.violated != "AllAccepted":
+            raise vlib.Infra("MC_nolock.cfg: expected AllAccepted to be violated, got %r" % nl.violated)
+        ctx.log("nolock: AllAccepted violated as expected when Send does not hold n.mtx across its fan-out")
     for k in jobs:
         ctx.account(r[k])
         ctx.log("%s: %d generated / %d distinct (%.0fs)%s" % (k, r[k].generated, r[k].distinct, r[k].wall,
@@ -76,6 +88,18 @@ def run(ctx):
     if not behs:
         raise vlib.Infra("no behaviours emitted")
     total = len(behs)
+
+    def reload_in_send(b):
+        """ApplyConfig is called while a Send sits between its snapshot of the alertmanager sets and its fan-out"""
+        held = False
+        for s in b:
+            if s["a"] == "Send" and s.get("gated"):
+                held = True
+            elif s["a"] == "SendDone":
+                held = False
+            elif s["a"] == "ApplyBegin" and held:
+                return True
+        return False
 
     def overlap(b):
         """a loop batch completes while the owner (stop / set change with drain) is stopping loops: the schedules in which
@@ -93,7 +117,7 @@ def run(ctx):
         return False
     if q:
         rnd = random.Random(ctx.seed)
-        keep = [b for b in behs if overlap(b)][:60]
+        keep = [b for b in behs if overlap(b)][:60] + [b for b in behs if reload_in_send(b)]
         one = r["rp1T"].emitted + r["rp1F"].emitted       # single Alertmanager, capacity 3 > batch 2
         two = r["rpT"].emitted + r["rpF"].emitted
         behs = keep + rnd.sample(one, min(900, len(one))) + rnd.sample(two, min(800, len(two)))
@@ -115,7 +139,8 @@ def run(ctx):
     ctx.assumptions += [
         "bounded model: 2 Alertmanagers, <=5 (thorough 6) alerts, capacity 2 and (single Alertmanager, 6 alerts) 3, batch 2, <=1 failed exchange, <=1 set change, removed Alertmanagers are not re-added",
         "replayed schedules are the Eager ones (environment moves only at quiescence); %d of %d generated schedules replayed in this tier" % (len(behs), total),
-        "fan-out of one Send to all send loops is atomic in the model (all adds run under ams.mtx; loops are independent)",
+        "fan-out of one Send to all send loops is atomic in the model (all adds run under ams.mtx; loops are independent); Send itself is two steps "
+        "(snapshot of the sets under n.mtx / fan-out) and ApplyConfig (reload with an unchanged configuration, <=1) is a concurrent process",
         "without drain-on-shutdown stop() does not wait for the loop: LossExact allows one batch already counted as dropped to be sent (not part of the property)",
     ]
     return ctx.finish(rule="every complete Eager schedule of the bounded model (quick: seeded sample) replayed through a gate in Options.Do; each step "
